@@ -193,6 +193,10 @@ def unquote (s : GoStr) : GoStr :=
     else []
   | [] => []
 
+/-- `RootNode.addImport`: goht's own imports and textual duplicates are dropped, order is kept -/
+def addImport (ui : List Tok) (t : Tok) : List Tok :=
+  if Gen.defaultImports.contains t.lit || ui.any (·.lit == t.lit) then ui else ui ++ [t]
+
 def attrsSet (m : List (GoStr × Attr)) (k : GoStr) (a : Attr) : List (GoStr × Attr) :=
   if m.any (·.1 == k) then m.map (fun kv => if kv.1 == k then (k, a) else kv) else m ++ [(k, a)]
 
@@ -282,8 +286,7 @@ def parseStep (p : P) : Except PErr P :=
     | .package => let (p, t) := p.next; .ok (p.setTop { p.top with head := .root t ui })
     | .import =>
       let (p, t) := p.next
-      if Gen.defaultImports.contains t.lit || ui.any (·.lit == t.lit) then .ok p
-      else .ok (p.setTop { p.top with head := .root pkg (ui ++ [t]) })
+      .ok (p.setTop { p.top with head := .root pkg (addImport ui t) })
     | .goCode | .newLine => let (p, t) := p.next; .ok (p.push (.code [t]))
     | .gohtStart => let (p, t) := p.next; .ok (p.push (.goht t))
     | .eof => .ok (p.next).1
